@@ -70,7 +70,7 @@ func msTerms(n int, tag string) ([]*scalar.Scalar, []*EdwardsPoint) {
 	var sharedP *EdwardsPoint
 	for i := 0; i < n; i++ {
 		if i < 2 || sharedS == nil {
-			s := &scalar.Scalar{}
+			s := secretScalar(tag + "s" + nafItoa(i)) // arbitrary (and, for the constant-time entry point, secret) scalars
 			p := any_EdwardsPoint(tag + "P" + nafItoa(i))
 			ss[i], ps[i] = s, p
 			if i >= 2 {
@@ -108,6 +108,19 @@ func samePoints(a, b []*EdwardsPoint) bool {
 }
 
 var msSizes = []int{0, 1, 2, 3, 189, 190, 191}
+
+// the constant-time entry point, two-safety: no branch, index or length on the way to the multiplication routine
+// depends on the (secret) scalars
+//
+//verif:ob prop=C08,C03 name=ct_multiscalar_entry_point mode=bv tags=purego use=msdisp,fa ct=1 split=sz:0..4
+func vh_C08_multiscalar_dispatch() {
+	msReset()
+	n := msSizes[verif.Case("sz")]
+	ss, ps := msTerms(n, "c")
+	p := &EdwardsPoint{}
+	p.MultiscalarMul(ss, ps)
+	verif.Assert(msCount == 1 && msWhich == 1 && sameScalars(msS, ss) && samePoints(msP, ps), "every (scalar, point) pair reaches the constant-time routine")
+}
 
 //verif:ob prop=C03,C09 name=L2_multiscalar_entry_points mode=int tags=purego use=msdisp,fa split=api:0..1;sz:0..6
 func vh_L2_multiscalar_dispatch() {
